@@ -232,6 +232,19 @@ def op_delete_src(w, op):
     w.events.append({'k': 'pr', 'id': pr.id, 'why': 'src-deleted'})
 
 
+def op_delete_w(w, op):
+    """Somebody deletes one integration branch of the PR on the remote."""
+    pr = user_pr(w, op.get('p'))
+    if pr is None:
+        return
+    wbs = wbranches_of(w, pr)
+    if not wbs:
+        return
+    name = wbs[op.get('vi', 0) % len(wbs)]
+    w.ugit('push', '-q', 'origin', ':' + name, check=False)
+    w.events.append({'k': 'pr', 'id': pr.id, 'why': 'w-deleted'})
+
+
 def op_wcommit(w, op):
     pr = user_pr(w, op.get('p'))
     if pr is None:
@@ -612,6 +625,7 @@ APPLY = {
     'rebase': op_rebase, 'merge_dst': op_merge_dst,
     'reset_src': op_reset_src, 'decline': op_decline,
     'delete_src': op_delete_src, 'wcommit': op_wcommit,
+    'delete_w': op_delete_w,
     'approve': _review('approve'),
     'request_changes': _review('request_changes'),
     'dismiss': _review('dismiss'), 'comment_review': _review(
@@ -731,6 +745,7 @@ class Gen:
         'comment': 1, 'delete_comment': 0.2, 'ci': 6, 'ci_green_all': 2,
         'api': 1, 'tag': 0.1, 'deliver': 8, 'dup': 0.3, 'drop': 0.0,
         'deliver_all': 2, 'restart': 0.2, 'resolve_conflict': 1.5,
+        'delete_w': 0.0,
     }
 
     def __init__(self, rng, cfg, weights=None, **kw):
@@ -777,6 +792,11 @@ class Gen:
         fn = getattr(self, 'g_' + kind, None)
         if fn:
             return fn(w)
+        if kind == 'delete_w':
+            p = self.pick_pr(w)
+            if p is None:
+                return None
+            return {'op': kind, 'p': p, 'vi': rng.randrange(4)}
         if kind in ('commit', 'amend', 'rebase', 'merge_dst', 'reset_src',
                     'decline', 'delete_src'):
             p = self.pick_pr(w)
